@@ -244,19 +244,20 @@ Definition s_xor (a b : term) : term :=
        | None => TOp2 XOR a b
        end.
 
-(* (c & y) << s = y << s when c keeps every bit that survives the shift *)
-Definition shl_mask_view (a b : term) : option term :=
+(* (c & y) << s: only the low 256-s bits of the mask matter; the mask is dropped when they are all set *)
+Definition shl_and_view (a b : term) : option (Z * Z * term) :=
   match a, b with
-  | TConst s, TOp2 AND (TConst c) y =>
-    if (0 <=? s) && (s <? 256) && (Z.land c (Z.ones (256 - s)) =? Z.ones (256 - s)) then Some y else None
+  | TConst s, TOp2 AND (TConst c) y => if (0 <=? s) && (s <? 256) then Some (s, c, y) else None
   | _, _ => None
   end.
 
 Definition s_shift (o : op2) (a b : term) : term :=
   if is_c a 0 then b else if is_c b 0 then TConst 0
   else if big_shift a && negb (op2_eqb o SAR) then TConst 0       (* logical shifts by 256 or more *)
-  else match (if op2_eqb o SHL then shl_mask_view a b else None) with
-       | Some y => TOp2 SHL a y
+  else match (if op2_eqb o SHL then shl_and_view a b else None) with
+       | Some (s, c, y) =>
+         let c' := Z.land c (Z.ones (256 - s)) in
+         if c' =? Z.ones (256 - s) then TOp2 SHL a y else TOp2 SHL a (TOp2 AND (TConst c') y)
        | None => TOp2 o a b
        end.
 
